@@ -4,17 +4,18 @@ Import ListNotations.
 Local Open Scope Z_scope.
 
 (* a non-negative scale (below 2^64) pads at most `scale` zeros *)
-Lemma pad_bounded scale len : 0 <= scale < two64 -> 0 <= len -> 0 <= pad_iterations scale len <= scale.
+Lemma pad_bounded scale len : scale < two64 -> 0 <= len -> 0 <= pad_iterations scale len <= Z.max scale 0.
 Proof.
-  intros Hs Hl. unfold pad_iterations, as_usize. rewrite Z.mod_small by lia.
+  intros Hs Hl. unfold pad_iterations. destruct (Z.leb_spec scale 0); [lia|].
+  unfold pad_iterations_cast, as_usize. rewrite Z.mod_small by lia.
   destruct (Z.ltb_spec len scale); lia.
 Qed.
 
 (* a negative scale wraps to an astronomically large count: the loop does not finish in practice *)
 Lemma pad_negative_huge scale len :
-  - 9223372036854775808 <= scale < 0 -> 0 <= len <= 64 -> 9223372036854775744 <= pad_iterations scale len.
+  - 9223372036854775808 <= scale < 0 -> 0 <= len <= 64 -> 9223372036854775744 <= pad_iterations_cast scale len.
 Proof.
-  intros Hs Hl. unfold pad_iterations, as_usize, two64 in *.
+  intros Hs Hl. unfold pad_iterations_cast, as_usize, two64 in *.
   assert (E : scale mod 18446744073709551616 = scale + 18446744073709551616).
   { symmetry. apply Z.mod_unique with (q := -1); lia. }
   rewrite E. destruct (Z.ltb_spec len (scale + 18446744073709551616)); lia.
@@ -68,4 +69,10 @@ Proof.
   destruct (heads_tails_len _ _ _ E) as [L M]. destruct (M Hne) as [M1 M2].
   assert (Hts : ts <> []) by (destruct its, ts; cbn in L; congruence).
   specialize (IH ts Hts ltac:(lia)). destruct (multizip f ts); congruence.
+Qed.
+
+Lemma zip_all_terminates its fuel : min_len its < fuel -> zip_all fuel its <> None.
+Proof.
+  intros H. destruct its as [|l r]; [discriminate|]. unfold zip_all.
+  apply multizip_terminates; [discriminate|exact H].
 Qed.
